@@ -120,7 +120,7 @@ func runFault(c *hx.Ctx, seq *Seq, counts []int, K int) {
 		if len(mp) != 3 {
 			hx.Fatalf("oracle reply %q", ml)
 		}
-		enc, _ := w.decodeImage(w.inner)
+		enc := encD
 		if !evOK && !strings.Contains(enc, "snap=-") && !(kind == "store" && snapshotAfter(seq.Ops, opI)) &&
 			!strings.Contains(evWhat, "initialize the running event filter") {
 			// is it the disk (a fresh process is wrong too) and is a persisted snapshot involved? Then it is
